@@ -1,4 +1,4 @@
-import CanvasProofs.Lemmas.C06Chain
+import CanvasProofs.Lemmas.C06Boundary
 import CanvasProofs.Lemmas.C06Ccw
 set_option linter.unusedSimpArgs false
 set_option linter.unusedVariables false
@@ -11,47 +11,185 @@ theorem getLast_append_self (a : IPt) (r : List IPt) :
     (a :: (r ++ [a])).getLast (by simp) = a := by
   rw [List.getLast_cons (by simp)]; simp
 
-/-- closed flat subpath, point off the path, start vertex not on the ray: the model of
-`windings(RayIntersections)` returns the winding number, never panics, reports no boundary -/
-theorem windingsSub_refines (p a : IPt) (r : List IPt)
-    (hoff : offChain p (subpathVerts true (a :: r))) (hstart : fR p a = false) :
+/-- the rotation fires on a list that starts with a start-hit and ends with an end-hit of the start vertex -/
+theorem rotateStart_fire (p v0 : IPt) (z0 e : Hit) (t : List Hit) (h0 : z0.tb = .zero) (h1 : e.tb = .one)
+    (hy : v0.y = p.y) (hx0 : z0.x = (v0.x : Rat)) (hx1 : e.x = (v0.x : Rat)) :
+    rotateStart p v0 (z0 :: (t ++ [e])) = e :: z0 :: t := by
+  have hg : (z0 :: (t ++ [e])).getLast? = some e := by
+    have : z0 :: (t ++ [e]) = (z0 :: t) ++ [e] := by simp
+    rw [this, List.getLast?_concat]
+  have hd : (z0 :: (t ++ [e])).dropLast = z0 :: t := by
+    have : z0 :: (t ++ [e]) = (z0 :: t) ++ [e] := by simp
+    rw [this, List.dropLast_concat]
+  cases t with
+  | nil =>
+    simp only [List.nil_append] at hg hd ⊢
+    simp only [rotateStart, hg, h0, h1, hy, hx0, hx1, and_self, if_true, hd]
+  | cons t1 t' =>
+    simp only [List.cons_append] at hg hd ⊢
+    simp only [rotateStart, hg, h0, h1, hy, hx0, hx1, and_self, if_true, hd]
+
+/-- when the rotation changes the list, the start vertex lies on the ray's line and the moved hit is at it -/
+theorem rotateStart_changes (p v0 : IPt) (hs : List Hit) (h : rotateStart p v0 hs ≠ hs) :
+    v0.y = p.y ∧ ∃ hl ∈ hs, hl.x = (v0.x : Rat) := by
+  unfold rotateStart at h
+  split at h
+  · split at h
+    · rename_i hl hget
+      split at h
+      · rename_i hc
+        obtain ⟨ys, hys⟩ := List.getLast?_eq_some_iff.mp hget
+        exact ⟨hc.2.2.1, hl, by rw [hys]; simp, hc.2.2.2.2⟩
+      · exact absurd rfl h
+    · exact absurd rfl h
+  · exact absurd rfl h
+
+theorem W_rotateStart (p v0 : IPt) (hs : List Hit) :
+    W ((rotateStart p v0 hs).map Hit.z) = W (hs.map Hit.z) ∧
+    nsame ((rotateStart p v0 hs).map Hit.z) = nsame (hs.map Hit.z) := by
+  rcases rotateStart_cases p v0 hs with h | ⟨ys, hl, h1, h2⟩
+  · rw [h]; exact ⟨rfl, rfl⟩
+  · rw [h2, h1]
+    simp only [List.map_cons, List.map_append, List.map_nil, W_append, nsame_append, W, nsame]
+    constructor <;> omega
+
+theorem chainHits_dup_last (p a : IPt) (l : List IPt) :
+    chainHits p (l ++ [a, a]) = chainHits p (l ++ [a]) := by
+  induction l with
+  | nil => simp [chainHits, edgeHits_self]
+  | cons x l ih =>
+    cases l with
+    | nil => simp [chainHits, edgeHits_self]
+    | cons y l' =>
+      simp only [List.cons_append, chainHits] at ih ⊢
+      rw [ih]
+
+theorem chainW_dup_last (p a : IPt) (l : List IPt) :
+    chainW p (l ++ [a, a]) = chainW p (l ++ [a]) := by
+  induction l with
+  | nil => simp [chainW, edgeW_self]
+  | cons x l ih =>
+    cases l with
+    | nil => simp [chainW, edgeW_self]
+    | cons y l' =>
+      simp only [List.cons_append, chainW] at ih ⊢
+      rw [ih]
+
+theorem offChain_dup_last (p a : IPt) (l : List IPt) (h : offChain p (l ++ [a, a])) :
+    offChain p (l ++ [a]) := by
+  induction l with
+  | nil => simp [offChain]
+  | cons x l ih =>
+    cases l with
+    | nil => simp only [List.cons_append, List.nil_append, offChain] at h ⊢; exact ⟨h.1, trivial⟩
+    | cons y l' =>
+      simp only [List.cons_append, offChain] at h ih ⊢
+      exact ⟨h.1, ih h.2⟩
+
+/-- the finishing step: a walk-paired sorted list of the (possibly rotated) hits evaluates to the
+winding number -/
+theorem windingsSub_of_WP (p a : IPt) (r : List IPt)
+    (hoff : offChain p (a :: (r ++ [a])))
+    (hwp : WP (isort (rotateStart p a (chainHits p (a :: (r ++ [a]))))) = true) :
     windingsSub true p (a :: r) = .ok (wn1 p (a :: r)) false := by
   have hv : subpathVerts true (a :: r) = a :: (r ++ [a]) := by simp [subpathVerts]
-  rw [hv] at hoff
-  have hlast : fR p ((a :: (r ++ [a])).getLast (by simp)) = false := by
-    rw [getLast_append_self]; exact hstart
-  have hwp := (chain_WP p (r ++ [a]) a hoff hlast).2 hstart
-  have hclean : Clean ((isort (chainHits p (a :: (r ++ [a])))).map Hit.z) := by
+  have hclean : Clean ((isort (rotateStart p a (chainHits p (a :: (r ++ [a]))))).map Hit.z) := by
     intro z hz
     obtain ⟨h, hh, rfl⟩ := List.mem_map.mp hz
-    have := chain_clean p (r ++ [a]) a hoff h ((mem_isort h _).mp hh)
+    have := chain_clean p (r ++ [a]) a hoff h ((mem_rotateStart p a _ h).mp ((mem_isort h _).mp hh))
     refine ⟨this.1, fun hs => ?_⟩
     have := this.2 hs
     simp [Hit.z, this]
   obtain ⟨m, hm, hval⟩ := go_weight _ 0 false (false, false) (WPz_of_WP _ hwp) hclean
   have hpar : ((false, false).1 !=
-      decide (nsame ((isort (chainHits p (a :: (r ++ [a])))).map Hit.z) % 2 = 1)) = false := by
-    rw [nsame_isort]
+      decide (nsame ((isort (rotateStart p a (chainHits p (a :: (r ++ [a]))))).map Hit.z) % 2 = 1)) = false := by
+    rw [nsame_isort, (W_rotateStart p a _).2]
     have := chain_nsame p (r ++ [a]) a hoff
     simp; omega
   have h2 := hval hpar
-  rw [W_isort, chain_W p (r ++ [a]) a hoff, getLast_append_self] at h2
+  rw [W_isort, (W_rotateStart p a _).1, chain_W p (r ++ [a]) a hoff, getLast_append_self] at h2
   simp only [phi] at h2
   have hm' : m = wn1 p (a :: r) := by
     simp only [wn1]
     have : a :: r ++ [a] = a :: (r ++ [a]) := by simp
     rw [this]; simp at h2; omega
-  simp only [windingsSub, rayHits, windings, hv]
+  simp only [windingsSub, rayHits, subHits, if_true, windings, hv]
   rw [hm, hm']
 
-/-- a closed subpath in the position the refinement covers -/
+/-- Closed flat subpath, query point on no segment: the model of `windings(RayIntersections)` returns
+the winding number and reports no boundary — vertices and horizontal edges on the ray, the START
+vertex on the ray (847036a) and self-intersections included. -/
+theorem windingsSub_refines (p a : IPt) (r : List IPt)
+    (hoff : offChain p (subpathVerts true (a :: r))) :
+    windingsSub true p (a :: r) = .ok (wn1 p (a :: r)) false := by
+  have hv : ∀ r, subpathVerts true (a :: r) = a :: (r ++ [a]) := by intro r; simp [subpathVerts]
+  rw [hv] at hoff
+  induction hn : r.length using Nat.strong_induction_on generalizing r with
+  | _ n ih =>
+    by_cases hstart : fR p a = true
+    · -- the start vertex lies on the ray
+      have hy : a.y = p.y := by simp [fR] at hstart; exact hstart.1
+      rcases List.eq_nil_or_concat r with rfl | ⟨r', c, rfl⟩
+      · apply windingsSub_of_WP p a [] hoff
+        simp [chainHits, edgeHits_self, rotateStart, isort, WP]
+      · simp only [List.concat_eq_append] at hoff hn ⊢
+        by_cases hca : c = a
+        · -- the last vertex repeats the first: same hits, same winding number as without it
+          subst hca
+          have e1 : c :: (r' ++ [c] ++ [c]) = (c :: r') ++ [c, c] := by simp
+          have e2 : c :: (r' ++ [c]) = (c :: r') ++ [c] := by simp
+          have hoff' : offChain p (c :: (r' ++ [c])) := by
+            rw [e2]; apply offChain_dup_last; rw [← e1]; exact hoff
+          have hsmall := ih r'.length (by rw [← hn]; simp) r' hoff' rfl
+          have hH : chainHits p (c :: (r' ++ [c] ++ [c])) = chainHits p (c :: (r' ++ [c])) := by
+            rw [e1, e2]; exact chainHits_dup_last p c (c :: r')
+          have hWn : wn1 p (c :: (r' ++ [c])) = wn1 p (c :: r') := by
+            simp only [wn1]
+            have e3 : c :: (r' ++ [c]) ++ [c] = (c :: r') ++ [c, c] := by simp
+            have e4 : c :: r' ++ [c] = (c :: r') ++ [c] := by simp
+            rw [e3, e4]; exact chainW_dup_last p c (c :: r')
+          simp only [windingsSub, rayHits, subHits, if_true, hv] at hsmall ⊢
+          rw [hH, hWn]; exact hsmall
+        · have hex : ∃ l c', a :: (r' ++ [c] ++ [a]) = l ++ [c', a] ∧ c' ≠ a :=
+            ⟨a :: r', c, by simp, hca⟩
+          obtain ⟨body, e, hH, he1, he2, hA, _⟩ := chain_WP_last p a hstart (r' ++ [c] ++ [a]) a hex hoff
+          obtain ⟨z0, t, hb, hz0, hx0, hwt⟩ := hA hstart
+          apply windingsSub_of_WP p a (r' ++ [c]) hoff
+          rw [hH, hb]
+          have : z0 :: t ++ [e] = z0 :: (t ++ [e]) := by simp
+          rw [this, rotateStart_fire p a z0 e t hz0 he1 hy hx0 he2]
+          simp only [isort]
+          exact WP_ins_pair e z0 (by simp [he1]) (by simp [hz0]) (by rw [hx0, he2]) (rat_irrefl _) _ hwt
+    · -- the start vertex is not on the ray: the rotation does not fire
+      have hstart' : fR p a = false := by simpa using hstart
+      apply windingsSub_of_WP p a r hoff
+      have hid : rotateStart p a (chainHits p (a :: (r ++ [a]))) = chainHits p (a :: (r ++ [a])) := by
+        by_contra hne
+        obtain ⟨hy, hl, hmem, hx⟩ := rotateStart_changes p a _ hne
+        have hb := (chain_boundary p (a :: (r ++ [a]))).1 hl hmem
+        have hc := chain_clean p (r ++ [a]) a hoff hl hmem
+        have hne' : hl.x ≠ (p.x : Rat) := by
+          intro heq
+          have := hb.2.mpr heq
+          rw [hc.1] at this; exact absurd this (by simp)
+        have hlt : (p.x : Rat) < (a.x : Rat) := by
+          rw [← hx]; exact lt_of_le_of_ne hb.1 (Ne.symm hne')
+        have : p.x < a.x := by exact_mod_cast hlt
+        have : fR p a = true := by simp [fR, hy, this]
+        rw [hstart'] at this; exact absurd this (by simp)
+      rw [hid]
+      have hlast : fR p ((a :: (r ++ [a])).getLast (by simp)) = false := by
+        rw [getLast_append_self]; exact hstart'
+      exact (chain_WP p (r ++ [a]) a hoff hlast).2 hstart'
+
+/-- a closed subpath with the query point on none of its segments -/
 def GoodSub (p : IPt) (s : Sub) : Prop :=
-  s.1 = true ∧ ∃ a r, s.2 = a :: r ∧ offChain p (subpathVerts true (a :: r)) ∧ fR p a = false
+  s.1 = true ∧ ∃ a r, s.2 = a :: r ∧ offChain p (subpathVerts true (a :: r))
 
 theorem windingsSub_good (p : IPt) (s : Sub) (h : GoodSub p s) :
     windingsSub s.1 p s.2 = .ok (wn1 p s.2) false := by
-  obtain ⟨hc, a, r, hs, hoff, hst⟩ := h
-  rw [hc, hs]; exact windingsSub_refines p a r hoff hst
+  obtain ⟨hc, a, r, hs, hoff⟩ := h
+  rw [hc, hs]; exact windingsSub_refines p a r hoff
 
 theorem wn_cons (p : IPt) (c : List IPt) (cs : List (List IPt)) :
     wn p (c :: cs) = wn1 p c + wn p cs := by
@@ -71,7 +209,7 @@ theorem windingsPathGo_refines (p : IPt) (subs : List Sub) (h : ∀ s ∈ subs, 
 /-- Filling's inner loop adds up the winding numbers of the other subpaths around `pos` -/
 theorem othersGo_refines (pos : IPt) (i : Nat) (subs : List Sub) (j : Nat) (n : Int)
     (h : ∀ k (hk : k < subs.length), j + k ≠ i → GoodSub pos subs[k]) :
-    othersGo pos i subs j n = some (n + wnOthers pos i (subs.map (·.2)) j) := by
+    othersGo pos i subs j n = n + wnOthers pos i (subs.map (·.2)) j := by
   induction subs generalizing j n with
   | nil => simp [othersGo, wnOthers]
   | cons s rest ih =>
@@ -90,7 +228,7 @@ theorem othersGo_refines (pos : IPt) (i : Nat) (subs : List Sub) (j : Nat) (n : 
         simpa using this
       simp only [hb, Bool.false_eq_true, if_false, windingsSub_good pos s hg]
       rw [ih (j + 1) _ hrest]
-      congr 1; omega
+      omega
 
 /-! ### Crossings -/
 
